@@ -55,16 +55,36 @@ def instances(rng, a, nground=3):
                 theta[p] = e
             else:
                 theta[p] = g.rand_type(rng, rng.randrange(3), 3, allow_params=rng.random() < 0.4, exprs=False)
-                if theta[p][0] == 'Dyn' and len(theta[p][1]) > 1 and noplus_position(a, p):
+                if toplevel_plus(theta[p]) and noplus_position(a, p):
                     reliable = False
         if len(ps) > 1 and rng.random() < 0.3:
             theta[ps[1]] = theta[ps[0]] if is_const_param(a, ps[1]) == is_const_param(a, ps[0]) else theta[ps[1]]
-        if any(v[0] == 'Dyn' and len(v[1]) > 1 and noplus_position(a, p) for p, v in theta.items()):
+            e = theta[ps[1]]
+            if is_const_param(a, ps[1]) and operand_position(a, ps[1]) and (e[0] == 'Lit' or not g.atomic(e)):
+                reliable = False     # the copied value is not parenthesised for an operand position
+            if is_const_param(a, ps[1]) and in_type_position(a, ps[1]) and e[0] != 'Lit':
+                reliable = False
+        if any(toplevel_plus(v) and noplus_position(a, p) for p, v in theta.items()):
             reliable = False
         if ps and rng.random() < 0.3:
             del theta[ps[0]]   # identity
         out.append((g.subst(a, theta), dict(reliable=reliable, theta={g.PFX + str(p): ('ex' if is_const_param(a, p) else 'ty', g.show(v)) for p, v in theta.items()})))
     return out
+
+
+def toplevel_plus(v):
+    """does the printed value contain a `+` outside all brackets (a type that is not a
+    `TypeNoBounds`: substituting it where the grammar takes no `+` re-parses differently)?"""
+    txt = g.show(v)
+    depth = 0
+    for i, c in enumerate(txt):
+        if c in '<([{':
+            depth += 1
+        elif c in ')]}' or (c == '>' and (i == 0 or txt[i - 1] != '-')):
+            depth -= 1
+        elif c == '+' and depth == 0:
+            return True
+    return False
 
 
 def noplus_position(a, p):
@@ -74,7 +94,7 @@ def noplus_position(a, p):
         return isinstance(y, tuple) and len(y) > 1 and y[0] == 'P' and y[1] == p
     def walk(x):
         if isinstance(x, tuple):
-            if x and x[0] in ('Ref', 'Ptr', 'Cast') and isp(x[-1]):
+            if x and x[0] in ('Ref', 'Ptr', 'Cast', 'CP') and isp(x[-1]):
                 return True
             if x and x[0] == 'Fn' and isp(x[4]):
                 return True
@@ -171,7 +191,11 @@ def gen_cases(rng, tier):
     n = 4000 if tier == 'quick' else 60000
     for _ in range(n):
         a = g.rand_type(rng, rng.randrange(1, 5), 3)
-        for b, theta in instances(rng, a, 2):
+        insts = instances(rng, a, 2)
+        if len(insts) == 2 and rng.random() < 0.3:
+            # trait arguments and self type instantiated differently: the shared parameters conflict
+            cases.append(('sup_gid', 'Kita<%s>' % g.show(a), g.show(a), 'Kita<%s>' % g.show(insts[0][0]), g.show(insts[1][0]), 'any'))
+        for b, theta in insts:
             exp = 'pos' if theta['reliable'] and not under_proj_or_paren(a) else 'any'
             THETA['\t'.join(('sup_ty', g.show(a), g.show(b)))] = theta['theta']
             cases.append(('sup_ty', g.show(a), g.show(b), exp))
